@@ -72,6 +72,7 @@ func init() {
 		Units: []Unit{evalUnit([]string{"evaluator/common.go", "evaluator/c04.go"},
 			Harness{Fn: "ZZC04Assign", Quick: p("D", 1), Thorough: p("D", 2), Expect: []string{"accepted", "rejected", "witness:end"}},
 			Harness{Fn: "ZZC04Infer", Expect: []string{"infer-ok", "witness:end"}},
+			Harness{Fn: "ZZC04Params", Quick: p("D", 1), Thorough: p("D", 2), Expect: []string{"params-accepted", "params-rejected", "witness:end"}},
 			Harness{Fn: "ZZC04Range", Quick: p("RN", 2), Thorough: p("RN", 3), Expect: []string{"range-accepted", "range-rejected", "witness:end"}},
 			Harness{Fn: "ZZC04InferGen", Quick: p("K", 2), Thorough: p("K", 3), ThoroughBudget: 25 * time.Minute, Expect: []string{"infergen-ok", "infergen-oracle", "infergen-assign", "witness:end"}},
 			Harness{Fn: "ZZC04Ops", Expect: []string{"ops-accepted", "witness:end"}},
@@ -125,6 +126,7 @@ func init() {
 			Harness{Fn: "ZZC07Num", Quick: p("PROP", 6), Thorough: p("PROP", 6), Expect: []string{"num-ok", "witness:end"}},
 			Harness{Fn: "ZZC07Str", Quick: p("PROP", 6, "S", 2), Thorough: p("PROP", 6, "S", 3), Expect: []string{"str-ok", "witness:end"}},
 			Harness{Fn: "ZZC06Multi", Quick: p("PROP", 6, "ML", 2), Thorough: p("PROP", 6, "ML", 3), Expect: []string{"multi-ok", "witness:end"}},
+			Harness{Fn: "ZZC06Groups", Quick: p("PROP", 6), Thorough: p("PROP", 6), Expect: []string{"groups-ok", "witness:end"}},
 		)},
 		Assumptions: []string{
 			"ZZC07Str: string literals of up to S pieces from 13 (plain, every escape sequence, non-ASCII, format and markup look-alikes) in four syntactic positions; ZZC06Multi: multi-line array/map literals of up to ML lines (element, element with comment, own-line comment, blank line; also comment-only literals) in six positions, at top level and inside a block",
@@ -149,6 +151,7 @@ func init() {
 			Harness{Fn: "ZZC07Num", Quick: p("PROP", 7), Thorough: p("PROP", 7), Expect: []string{"num-ok", "witness:end"}},
 			Harness{Fn: "ZZC07Str", Quick: p("PROP", 7, "S", 2), Thorough: p("PROP", 7, "S", 3), Expect: []string{"str-ok", "witness:end"}},
 			Harness{Fn: "ZZC06Multi", Quick: p("PROP", 7, "ML", 2), Thorough: p("PROP", 7, "ML", 3), Expect: []string{"multi-ok", "witness:end"}},
+			Harness{Fn: "ZZC06Groups", Quick: p("PROP", 7), Thorough: p("PROP", 7), Expect: []string{"groups-ok", "witness:end"}},
 		), mainUnit([]string{"main/c18.go", "main/c18native.go", "main/c07m.go"},
 			Harness{Fn: "ZZC07Check", Expect: []string{"check-ok", "witness:end"}},
 			Harness{Fn: "ZZC07CheckFiles", Quick: p("FILES", 2), Thorough: p("FILES", 3), Expect: []string{"files-ok", "files-unformatted", "witness:end"}},
@@ -186,6 +189,7 @@ func init() {
 		ID: "C02", Title: "Accepted programs never go wrong (type soundness)", Level: "model_checking",
 		Units: []Unit{evalUnit([]string{"evaluator/common.go", "evaluator/c02.go", "evaluator/c04.go", "evaluator/c08.go", "evaluator/c09.go"},
 			Harness{Fn: "ZZC02Audit", Expect: []string{"audit-ok", "witness:end"}},
+			Harness{Fn: "ZZC02Assert", Expect: []string{"assert-ok", "assert-panics", "witness:end"}},
 			Harness{Fn: "ZZC02Builtins", Expect: []string{"builtin-rand", "builtin-print", "builtin-font", "builtin-poly", "witness:end"}, MaxInstr: 5_000_000},
 			Harness{Fn: "ZZC02Primitives", Expect: []string{"repeat", "concat", "fromany", "zero", "witness:end"}},
 			Harness{Fn: "ZZC02Programs", Expect: []string{"program-ok", "witness:end"}},
